@@ -23,11 +23,24 @@ pub fn collect_features(
     traversal_model: Arc<dyn TraversalModel>,
     access_model: Arc<dyn AccessModel>,
 ) -> Result<Vec<(String, StateFeature)>, StateModelError> {
-    // prepare the set of features for this state model
-    let model_features = traversal_model
+    // prepare the set of features for this state model, in declaration order (traversal model
+    // first, then access model; a later feature replaces an earlier one of the same name in
+    // place). the order assigns the slots of the state vector: taken from a HashMap's iteration
+    // order it varied from run to run, and with it the order of every sum over the features
+    let mut ordered_features: Vec<(String, StateFeature)> = vec![];
+    for (name, feature) in traversal_model
         .state_features()
         .into_iter()
         .chain(access_model.state_features())
+    {
+        match ordered_features.iter_mut().find(|(n, _)| *n == name) {
+            Some(existing) => existing.1 = feature,
+            None => ordered_features.push((name, feature)),
+        }
+    }
+    let model_features = ordered_features
+        .iter()
+        .cloned()
         .collect::<HashMap<_, _>>();
     // build the state model. inject state features from the traversal and access models
     // and then allow the user to optionally override any initial conditions for those
@@ -52,7 +65,7 @@ pub fn collect_features(
             Some(_) => Ok((name, feature)),
         })
         .collect::<Result<Vec<_>, _>>()?;
-    let mut added_features: Vec<(String, StateFeature)> = model_features.into_iter().collect_vec();
+    let mut added_features: Vec<(String, StateFeature)> = ordered_features;
     added_features.extend(user_features);
     Ok(added_features)
 }
